@@ -32,7 +32,7 @@ import (
 
 const (
 	height   = 100
-	txGas    = 3000000
+	txGas    = 1000000
 	maxNodes = 12
 	plainA   = 13 // ids of plain (code-less, initially absent) accounts
 	plainB   = 14
@@ -144,13 +144,13 @@ func (c *compiler) body(n *node, isCreate bool) []byte {
 				a.Op(eu.PUSH0, eu.PUSH0, eu.PUSH0, eu.PUSH0)
 				switch ch.Kind {
 				case "call":
-					a.PushInt(uint64(it.V % 2)).PushInt(uint64(0x1000 + ch.id)).PushInt(400000).Op(eu.CALL)
+					a.PushInt(uint64(it.V % 2)).PushInt(uint64(0x1000 + ch.id)).PushInt(150000).Op(eu.CALL)
 				case "callcode":
-					a.PushInt(uint64(it.V % 2)).PushInt(uint64(0x1000 + ch.id)).PushInt(400000).Op(eu.CALLCODE)
+					a.PushInt(uint64(it.V % 2)).PushInt(uint64(0x1000 + ch.id)).PushInt(150000).Op(eu.CALLCODE)
 				case "delegate":
-					a.PushInt(uint64(0x1000 + ch.id)).PushInt(400000).Op(eu.DELEGATECALL)
+					a.PushInt(uint64(0x1000 + ch.id)).PushInt(150000).Op(eu.DELEGATECALL)
 				case "static":
-					a.PushInt(uint64(0x1000 + ch.id)).PushInt(400000).Op(eu.STATICCALL)
+					a.PushInt(uint64(0x1000 + ch.id)).PushInt(150000).Op(eu.STATICCALL)
 				default:
 					vutil.Fatalf("unknown frame kind %q", ch.Kind)
 				}
